@@ -21,8 +21,9 @@
     candidate   volatile-*: a key without a deadline was removed
     overshoot   eviction went on after usage was back under the limit
     order       LFU: a removed key had a higher recorded count than a surviving candidate;
-                LRU: a removed key had a later recorded access than a surviving candidate
-                (pairs not named by the command itself, both recorded before the command)
+                LRU: a removed key had a later recorded access than a surviving candidate, or the key the command
+                itself has just used was removed while another candidate survives
+                (otherwise pairs not named by the command itself, both recorded before the command)
     residue     a removed key is still in the volatile index or in a heap
     stale       a heap holds an entry for a key that is not in the store
 -/
@@ -112,7 +113,10 @@ def verdict (c : Ctx) (cmd : List Bytes) (pre : EState) (base : Option (State ×
               | none => true
               | some cs => ce ≤ cs
         else if isLruPol c.cfg.policy then
-          evicted.all fun (d, e) => named e || match lruTime pre d e with
+          evicted.all fun (d, e) =>
+            -- the key the command itself has just used is the most recently used one: it may go only last
+            if named e then !((post.s.db d).store.any fun (s, _) => !named s && cand d s) else
+            match lruTime pre d e with
             | none => true
             | some te => (post.s.db d).store.all fun (s, _) => named s || !cand d s || match lruTime pre d s with
               | none => true
